@@ -236,7 +236,8 @@ def finish(mod, tier, seed, merged, broken, wall, planned):
             kf_hits[k] = merged['obs'].get('violation:' + k, len(vs))
             lines.append('KNOWN-FINDING: property=%s %s [%s; %d occurrence(s) in this run]'
                          % (pid_, known[(pid_, k)], k, kf_hits[k]))
-    replay_dir = os.path.join(VERIF, 'replays', pid_)
+    out_root = os.environ.get('VERIF_OUT_DIR') or VERIF       # selftest runs write elsewhere
+    replay_dir = os.path.join(out_root, 'replays', pid_)
     for k in new_keys:
         os.makedirs(replay_dir, exist_ok=True)
         vs = by_key[k]
@@ -289,8 +290,8 @@ def finish(mod, tier, seed, merged, broken, wall, planned):
     ev = {'property_id': pid_, 'tier': tier, 'seed': seed, 'level': mod.LEVEL, 'coverage': cov,
           'assumptions': list(getattr(mod, 'ASSUMPTIONS', [])), 'wall_s': round(wall, 2),
           'violations': len(new_keys)}
-    os.makedirs(os.path.join(VERIF, 'evidence'), exist_ok=True)
-    with open(os.path.join(VERIF, 'evidence', '%s.json' % pid_), 'w') as f:
+    os.makedirs(os.path.join(out_root, 'evidence'), exist_ok=True)
+    with open(os.path.join(out_root, 'evidence', '%s.json' % pid_), 'w') as f:
         json.dump(ev, f, indent=1, default=str)
     for ln in lines:
         print(ln)
